@@ -246,6 +246,8 @@ def rejected_calls():
         ("run", "bad-select", X, {"select": ["nope"]}),
         ("run", "bad-override-policy", X, {"on_internal_override": "boom"}),
         ("run", "internal-override-error", {"x": "in.x", "a": "in.a"}, {"on_internal_override": "error"}),
+        ("run", "input-given-twice", X, {"x": "again"}),   # the same key in the values dict and as a keyword argument
+        ("map", "map-input-given-twice", {"x": ["1", "2"]}, {"map_over": "x", "x": ["3", "4"]}),
         ("run", "sync-runner-async-node", X, {}),        # only where the runner cannot run the graph
         ("map", "map-unknown-param", {"x": ["1", "2"]}, {"map_over": "y"}),
         ("map", "map-unequal-zip", {"x": ["1", "2"], "k": ["1"]}, {"map_over": ["x", "k"]}),
